@@ -460,6 +460,9 @@ func (r *Rect) decode(d *decoder) {
 	r.Lat.Hi = d.readFloat64()
 	r.Lng.Lo = d.readFloat64()
 	r.Lng.Hi = d.readFloat64()
+	if d.err == nil && !r.IsValid() {
+		d.err = fmt.Errorf("invalid rect: %v", *r)
+	}
 }
 
 // DistanceToLatLng returns the minimum distance (measured along the surface of the sphere)
